@@ -950,12 +950,14 @@ static void consume(Worker &w, Stats &st, std::vector<Failure> &fails_out, bool 
     w.buf.erase(0, pos);
 }
 
+// set by find_target(): "@variant" part of the requested target name (build variants)
+static std::string g_name_suffix;
 static void write_replay(const Opts &o, const Target &t, Failure &f)
 {
     std::string body;
     body += "vpbt-replay 1\n";
     body += "property " + o.prop + "\n";
-    body += std::string("target ") + t.name + "\n";
+    body += std::string("target ") + t.name + g_name_suffix + "\n";
     if (f.is_enum)
         body += "mode enum\ndata " + std::to_string(f.k) + "\n";
     else
@@ -974,7 +976,7 @@ static void write_replay(const Opts &o, const Target &t, Failure &f)
             ch = '_';
     if (sig.size() > 60)
         sig.resize(60);
-    std::string path = o.replay_dir + "/" + o.prop + "-" + t.name + "-" + sig + "-" +
+    std::string path = o.replay_dir + "/" + o.prop + "-" + t.name + g_name_suffix + "-" + sig + "-" +
                        fmt("%08x", (unsigned)(h & 0xffffffff)) + ".case";
     FILE *fp = fopen(path.c_str(), "w");
     if (fp)
@@ -1364,10 +1366,19 @@ static void write_result(const Opts &o, const Target &t, const Stats &st, double
     }
 }
 
+// Build variants (the same harness compiled with other flags, e.g. -funsigned-char) run the same targets under a
+// suffixed name ("ato" -> "ato@uchar"): the part from '@' on only tells the driver which executable a replay belongs to.
 static const Target *find_target(const std::string &name)
 {
+    std::string base = name;
+    size_t at = base.find('@');
+    if (at != std::string::npos)
+    {
+        g_name_suffix = base.substr(at);
+        base.resize(at);
+    }
     for (auto &t : targets())
-        if (name == t.name)
+        if (base == t.name)
             return &t;
     return nullptr;
 }
